@@ -19,6 +19,20 @@ TRUSTED = ['CPython weakref / functools.lru_cache / reference-counting semantics
 ASSUMPTIONS = ['analysis objects are not mutated between calls; classes using the decorator define no __eq__/__hash__']
 
 
+def pre_build():
+    import translate
+    unit, uses = translate.gen_weak_cache()
+    covered = {'transitions.matrix', 'transitions.states_next', 'transitions.states_prev', 'metrics.particle_density', 'metrics.tracer_diffusivity',
+               'metrics.attempt_frequency', 'metrics.vibration_amplitude', 'metrics.amplitudes', 'metrics.speed', 'metrics.haven_ratio',
+               'metrics.tracer_conductivity', 'metrics.mol_per_liter', 'metrics.tracer_diffusivity_center_of_mass', 'jumps.matrix', 'jumps.counter',
+               'jumps._counter', 'jumps.jump_diffusivity', 'jumps.to_graph', 'jumps.collective', 'jumps.rates', 'jumps.activation_energies',
+               'collective.site_pair_count_matrix_labels', 'collective.site_pair_count_matrix', 'collective.multiple_collective'}
+    missing = [u for u in uses if u not in covered]
+    note = ('coverage: every cached method of the library is in the transparency plan' if not missing else
+            'coverage: cached methods NOT in the transparency plan (transparency of these is not observed): ' + ', '.join(missing))
+    return [unit, (note, True, 'ok')]
+
+
 def gen_cases(rng, tier):
     n = {'quick': 300, 'thorough': 6000, 'search': 200}[tier]
     cases = []
@@ -108,10 +122,17 @@ def _impl_trace(case):
 def _eq(a, b):
     import pandas as pd
     if isinstance(a, np.ndarray) or isinstance(b, np.ndarray):
+        a, b = np.asarray(a), np.asarray(b)
+        if a.shape != b.shape:
+            return False
+        if a.dtype.kind == 'f' and b.dtype.kind == 'f':
+            # other calls may convert the trajectory between positions and displacements in place; a recomputation then differs by
+            # rounding (observed 2e-15 on values of order 4), which is not a difference of results
+            return bool(np.allclose(a, b, rtol=1e-9, atol=1e-12, equal_nan=True))
         try:
-            return np.array_equal(np.asarray(a), np.asarray(b), equal_nan=True)
+            return np.array_equal(a, b, equal_nan=True)
         except TypeError:       # structured arrays (multiple_collective)
-            return np.array_equal(np.asarray(a), np.asarray(b))
+            return np.array_equal(a, b)
     if isinstance(a, (pd.DataFrame, pd.Series)):
         return a.equals(b)
     if isinstance(a, (tuple, list)):
@@ -120,6 +141,8 @@ def _eq(a, b):
         return sorted(a.edges(data=True), key=str) == sorted(b.edges(data=True), key=str)
     if type(a).__name__ == 'Collective':
         return a.coll_jumps == b.coll_jumps and a.n_solo_jumps == b.n_solo_jumps
+    if isinstance(a, float) and isinstance(b, float):
+        return bool(np.isclose(a, b, rtol=1e-9, atol=1e-300, equal_nan=True))
     try:
         r = a == b
         if isinstance(r, (bool, np.bool_)):
@@ -161,7 +184,7 @@ def _impl_real(case):
         if j is not None:
             plan += [(n, j, 'matrix', (), {}), (n, j, 'counter', (), {}), (n, j, '_counter', (), {}),
                      (n, j, 'jump_diffusivity', (3,), {}), (n, j, 'jump_diffusivity', (2,), {}), (n, j, 'to_graph', (), {}),
-                     (n, j, 'collective', (), {}), (n, j, 'collective', (2.0,), {})]
+                     (n, j, 'collective', (), {}), (n, j, 'collective', (2.0,), {}), (n, j, 'rates', (2,), {}), (n, j, 'activation_energies', (2,), {})]
             from gemdat.collective import Collective
             co = Collective(jumps=j, sites=tr.sites, lattice=traj.get_lattice(), max_steps=8, max_dist=3.5)
             plan += [(n, co, 'site_pair_count_matrix_labels', (), {}), (n, co, 'site_pair_count_matrix', (), {}), (n, co, 'multiple_collective', (), {})]
